@@ -1,5 +1,6 @@
 pub mod hist;
 pub mod c01;
+pub mod kf;
 
 use crate::driver::Tier;
 use serde_json::Value;
